@@ -36,10 +36,22 @@ def merge(a, b):
     return a
 
 
+EARLY_STOP_AFTER = 24          # once this many violations are in, remaining shards are skipped (run is failing anyway)
+_counter = None
+
+
 def _call(args):
     fn, shard = args
     try:
-        return ("ok", fn(shard))
+        if _counter is not None and _counter.value >= EARLY_STOP_AFTER:
+            return ("ok", {"truncated": 1, "skipped_shards": 1})
+        val = fn(shard)
+        if _counter is not None:
+            nv = val.get("n_violations", len(val.get("violations", []))) if isinstance(val, dict) else 0
+            if nv:
+                with _counter.get_lock():
+                    _counter.value += nv
+        return ("ok", val)
     except BaseException:                       # noqa: BLE001 - a worker crash is a harness error, reported as such
         return ("crash", "shard %r\n%s" % (shard, traceback.format_exc()))
 
@@ -72,7 +84,9 @@ def run_shards(fn, shards, jobs=None):
                 raise HarnessError(val)
             merge(total, val)
         return total
+    global _counter
     ctx = mp.get_context("fork")
+    _counter = ctx.Value("i", 0)
     with ctx.Pool(min(jobs, len(shards))) as pool:
         for st, val in pool.imap_unordered(_call, [(fn, sh) for sh in shards], chunksize=1):
             if st != "ok":
